@@ -80,13 +80,26 @@ func checkCli(c Case) error {
 			return t.Newick() + "\n", nil
 		})
 	case "single":
-		return cli.Differential([]string{"collapse", "single"}, text, nil, func() (string, error) {
-			t, err := load(c.Tree, false)
-			if err != nil {
-				return "", err
+		// a stream: the tree, a second one (the graft/other tree when there is one) and the tree again
+		stream := []*ref.Node{c.Tree, c.Tree}
+		if c.Other != nil {
+			stream = []*ref.Node{c.Tree, c.Other, c.Tree}
+		}
+		in := ""
+		for _, m := range stream {
+			in += ref.Write(m) + "\n"
+		}
+		return cli.Differential([]string{"collapse", "single"}, in, nil, func() (string, error) {
+			out := ""
+			for _, m := range stream {
+				t, err := load(m, false)
+				if err != nil {
+					return "", err
+				}
+				t.RemoveSingleNodes()
+				out += t.Newick() + "\n"
 			}
-			t.RemoveSingleNodes()
-			return t.Newick() + "\n", nil
+			return out, nil
 		})
 	case "subtree":
 		// select an inner node by its (unique) name
